@@ -457,6 +457,89 @@ def requeue_session(kind, first_fate):
     return obs
 
 
+def cancel_in_sweep_session(kind, hook_sleep, reset_after):
+    """an old message A times out; the sweep that reports it runs inside correlator.put() of the next message B (just written), and
+    the application's send_error hook takes `hook_sleep` seconds; `reset_after` seconds into the hook the connection is lost and the
+    session is torn down, which cancels the sender inside put(B). The session reconnects; later traffic drives the sweeps."""
+    from aiosmpplib.protocol import SubmitSm, SubmitSmResp, GenericNack
+    from aiosmpplib.state import PhoneNumber
+    from aiosmpplib.correlator import SimpleCorrelator
+    from aiosmpplib.retrytimer import SimpleExponentialBackoff
+    loop = vsess.VLoop()
+    asyncio.set_event_loop(loop)
+    smsc = vsess.FakeSMSC(loop)
+    undo = vsess.install(loop, smsc)
+    obs = {'outcomes': []}
+    try:
+        esme, hook = vsess.quiet_esme(enquire_link_interval=50.0, socket_timeout=100.0, correlator=SimpleCorrelator('ccs', max_ttl_response=3.0),
+                                      retry_timer=SimpleExponentialBackoff(200, 2))
+
+        def on_pdu(conn, pdu):
+            for p in vsess.split_pdus(pdu)[0]:
+                cmd, seq = struct.unpack('>I', p[4:8])[0], struct.unpack('>I', p[12:16])[0]
+                if cmd in (1, 2, 9):
+                    conn.send(vsess.bind_resp_for(p))
+                elif cmd == 0x15:
+                    conn.send(smppref.header(0x80000015, 0, seq), delay=0.01)
+        smsc.on_pdu = on_pdu
+        fired = []
+
+        def egate(m, err):
+            if isinstance(m, SubmitSm):
+                obs['outcomes'].append((round(loop.time(), 2), m.log_id, type(err).__name__))
+                if m.log_id == 'A' and isinstance(err, TimeoutError) and not fired:
+                    fired.append(1)
+                    smsc.conns[-1].reset(delay=reset_after)
+                    return asyncio.sleep(hook_sleep)
+            return None
+        hook.error_gate = egate
+        src = PhoneNumber('38591')
+
+        def mk(lid, text):
+            kw = dict(short_message=text, source=src, destination=src, log_id=lid, extra_data='X' + lid)
+            if kind != 'plain' and lid == 'B':
+                kw['auto_message_payload'] = False
+                kw['short_message'] = 'b' * 300
+                if kind == 'udh':
+                    kw['esm_class'] = 0x40
+            return SubmitSm(**kw)
+
+        async def main():
+            t = asyncio.create_task(esme.start())
+            await asyncio.sleep(0.5)
+            await esme.broker.enqueue(mk('A', 'a'))
+            await asyncio.sleep(4.0)
+            await esme.broker.enqueue(mk('B', 'b'))
+            for lid in ('C', 'D', 'E'):
+                await asyncio.sleep(6.0)
+                await esme.broker.enqueue(mk(lid, 'x'))
+            await asyncio.sleep(6.0)
+            obs['start_done'] = t.done()
+            for e in hook.log:
+                if e[0] == 'received' and isinstance(e[1], (SubmitSmResp, GenericNack)) and e[1].log_id:
+                    obs['outcomes'].append((0, e[1].log_id, 'response'))
+            t.cancel()
+            try:
+                await t
+            except BaseException:  # noqa: BLE001
+                pass
+        loop.run_until_complete(main())
+    finally:
+        undo()
+        vsess.finish(loop)
+    return obs
+
+
+def oracle_cancel_in_sweep(obs):
+    if obs.get('start_done'):
+        return 'start() ended'
+    for lid in ('A', 'B', 'C', 'D'):
+        oc = [o for o in obs['outcomes'] if o[1] == lid]
+        if len(oc) != 1:
+            return f'message {lid} got {len(oc)} outcomes: {oc} (all outcomes: {obs["outcomes"]})'
+    return None
+
+
 def oracle_requeue(obs):
     if obs.get('start_done'):
         return 'start() ended'
@@ -634,6 +717,17 @@ def run(ctx):
             if msg:
                 ctx.violation(f'{kind}-segmented message, second segment {fate}, then re-queued by the application: {msg}',
                               {'scenario': 'requeue', 'kind': kind, 'fate': fate})
+    # ---- the sender is cancelled (connection loss) while the application's send_error hook for an older message runs inside put()
+    for kind in ('plain', 'sar', 'udh'):
+        for hook_sleep, reset_after in ((1.0, 0.3), (0.2, 0.1), (3.0, 2.0)) + (((1.0, 0.0), (0.7, 0.45), (5.0, 0.3)) if ctx.thorough else ()):
+            obs = cancel_in_sweep_session(kind, hook_sleep, reset_after)
+            ctx.traces += 1
+            ctx.case(('cancel_in_sweep', kind, hook_sleep, reset_after), nontrivial=True)
+            msg = oracle_cancel_in_sweep(obs)
+            if msg:
+                ctx.violation(f'message B ({kind}) is written while an older message times out; the send_error hook for the older message takes {hook_sleep} s '
+                              f'and the connection is lost {reset_after} s into it: {msg}',
+                              {'scenario': 'cancel_in_sweep', 'kind': kind, 'hook_sleep': hook_sleep, 'reset_after': reset_after})
     # ---- more than 255 reference-taking messages in flight at once
     for n_between in (254, 255):
         obs = ref_collision_session(n_between)
@@ -665,6 +759,10 @@ def replay(ctx, path):
     elif r.get('scenario') == 'teardown':
         print('replay: run ./check C06 --replay with the same scenario (harness/C06.run_teardown) - lag', r['lag'], 'long_text', r['long_text'])
         return 0
+    elif r.get('scenario') == 'cancel_in_sweep':
+        obs = cancel_in_sweep_session(r['kind'], r['hook_sleep'], r['reset_after'])
+        print('replay: outcomes (time, log_id, kind):', obs['outcomes'])
+        msg = oracle_cancel_in_sweep(obs)
     elif r.get('scenario') == 'requeue':
         obs = requeue_session(r['kind'], r['fate'])
         print('replay: outcomes', obs['outcomes'], 'submit_sm PDUs', obs['submits'])
